@@ -27,6 +27,10 @@ func main() {
 		cacheChild()
 		return
 	}
+	if id == "apichild" {
+		apiChild()
+		return
+	}
 	fs := flag.NewFlagSet("hx", flag.ExitOnError)
 	tier := fs.String("tier", "quick", "quick|thorough")
 	seed := fs.Int64("seed", 1, "PRNG seed")
